@@ -191,3 +191,19 @@ Proof. exact c09_from_rows_nonvacuous. Qed.
 Print Assumptions C09_prefix_stable_from_rows.
 Print Assumptions C09_later_rows_change_nothing.
 Print Assumptions C09_from_rows_nonvacuous.
+
+(** Source tie (regenerated on every run).  The three aggregates of [compute] whose stability under later transactions rests on
+    a to-date rule of computed_data.py -- the yearly summary (cut of `_create_yearly_gain_loss_list`, year filter), the sold
+    percentage per lot (the loop runs over the FILTERED gain/loss set; skip conditions on the lot's date), the average price
+    (cut of `_compute_price_per_unit`) -- computed from the tables the translator reads from the source (Model/GeneratedTie.v,
+    interpreters in Model/ComputedGen.v) are the hand-written [yearly_list], [sold_pct_add] fold and [price_per_unit] of
+    Model/Computed.v.  An edit that drops a cut or moves the sold-percentage loop to the unfiltered set makes this theorem
+    stop compiling (Proofs/ComputedGenYearly.v, ComputedGenSold.v, ComputedGenPrice.v). *)
+From RP2V Require Import Model.GeneratedTie Model.ComputedGen Proofs.ComputedGenProofs.
+Theorem C09_source_tie_to_date_rules :
+  (forall period from_day to_day gls, yearly_list_gen period from_day to_day gls = yearly_list period to_day (year_of_day from_day) gls) /\
+  (forall from_day to_day gls,
+     sold_pct_gen from_day to_day gls = fold_left (sold_pct_add from_day to_day) (iter_window g_day from_day to_day gls) (Ok [])) /\
+  (forall from_day to_day ins, price_per_unit_gen from_day to_day ins = price_per_unit to_day ins).
+Proof. exact window_aggregates_gen_agree. Qed.
+Print Assumptions C09_source_tie_to_date_rules.
